@@ -608,6 +608,9 @@ def prepare_live(sc, rng):
     elif mode == "noowner":
         body.get("metadata", {}).pop("ownerReferences", None)
         sc["live"] = body
+    elif mode == "drift_noowner":
+        body.get("metadata", {}).pop("ownerReferences", None)
+        sc["live"], sc["drift_path"] = drift_obj(body, rng)
     elif mode == "terminating":
         # an object that matches but is being deleted by the API server
         md = body.setdefault("metadata", {})
